@@ -16,7 +16,7 @@ func init() {
 
 type c6Binding struct {
 	spec  string // c1 c2 condition internal-panic
-	behav int    // 0 return value, 1 signal (error 'c2 7), 2 rethrow
+	behav int    // 0 return value, 1 signal (error 'c2 7), 2 rethrow, 3 a handler-bind INSIDE the running handler catches another error (c9, data 9) and rethrows that one
 }
 
 var c6BindingLists = [][]c6Binding{
@@ -27,10 +27,12 @@ var c6BindingLists = [][]c6Binding{
 	{{"c1", 2}},
 	{{"c2", 1}, {"c1", 0}},
 	{{"c1", 1}, {"c2", 0}},
+	{{"c1", 3}, {"c2", 0}},
+	{{"condition", 3}},
 }
 
 // wrapper: 0 progn, 1 ignore-errors, 2+i handler-bind with binding list i
-const c6NWrap = 9
+const c6NWrap = 11
 
 // signal: 0 none, 1 (error 'c1 d), 2 (error 'c2 d), 3 forged (error 'internal-panic d), 4 real host panic
 type c6Node struct {
@@ -44,6 +46,7 @@ type c6Err struct {
 	name string
 	real bool // produced by recovering a real host panic
 	mid  bool // data is the middle value 7 signalled by a handler (not d)
+	nine bool // the error raised and rethrown inside a running handler (c9, data 9)
 }
 
 type c6Result struct {
@@ -93,6 +96,8 @@ func (n *c6Node) src(hid *int) string {
 			h += "(error 'c2 7)"
 		case 2:
 			h += "(rethrow)"
+		case 3:
+			h += "(handler-bind ((c9 (lambda (c2 &rest a2) (probe 'inner) (rethrow)))) (error 'c9 9))"
 		}
 		h += ")"
 		sb.WriteString("(" + b.spec + " " + h + ") ")
@@ -158,7 +163,9 @@ func (n *c6Node) eval(trace *[]string) c6Result {
 		}
 		*trace = append(*trace, r.err.name)
 		if b.spec != "internal-panic" {
-			if r.err.mid {
+			if r.err.nine {
+				*trace = append(*trace, "data-other")
+			} else if r.err.mid {
 				*trace = append(*trace, "data-7")
 			} else {
 				*trace = append(*trace, "data-d")
@@ -171,6 +178,9 @@ func (n *c6Node) eval(trace *[]string) c6Result {
 			return c6Result{err: &c6Err{name: "c2", mid: true}}
 		case 2:
 			return r // the very error being handled
+		case 3:
+			*trace = append(*trace, "inner")
+			return c6Result{err: &c6Err{name: "c9", nine: true}} // the very error the INNER handler was handling
 		}
 	}
 	return r // unmatched: propagates unchanged
@@ -196,6 +206,7 @@ func VerifC06_EHandlers() {
 	root := c6Gen(depth, &id)
 	d := vndInt("d")
 	vAssume(d != 7) // 7 is the data of the error a handler signals; keep the two distinguishable
+	vAssume(d != 9) // and 9 that of the error raised inside a running handler
 	hid := 0
 	src := root.src(&hid)
 	ps := &probeState{panicAt: 1}
@@ -235,7 +246,9 @@ func VerifC06_EHandlers() {
 		vAssert(lisp.IsInternalPanic(res) == wr.err.real, "only an error recovered from a real host panic carries the panic carve-out")
 		if !wr.err.real {
 			dv := res.Cells
-			if wr.err.mid {
+			if wr.err.nine {
+				vAssert(len(dv) == 1 && dv[0].Type == lisp.LInt && dv[0].Int == 9, "rethrow inside a nested handler re-raises the error THAT handler is handling, with its data")
+			} else if wr.err.mid {
 				vAssert(len(dv) == 1 && dv[0].Type == lisp.LInt && dv[0].Int == 7, "error data is preserved")
 			} else {
 				if dkind == 0 {
